@@ -1819,3 +1819,91 @@ def rollout_problem(tree, sep, relaxed, sel):
     if not ro_same(again, ro_expected(tree)):
         return "rollout of an already nested mapping is not the identity"
     return ""
+
+
+# --------------------------------------------------------------------------- C19: v1 -> v2 import rewriting
+import ast as _ast  # noqa: E402
+import importlib as _importlib  # noqa: E402
+
+from d42.migration.migrate_v1_to_v2 import mapping as MIG_MAPPING, rewrite_imports  # noqa: E402
+
+MIG_ENTRIES = [(m, n, MIG_MAPPING[m][n][0], MIG_MAPPING[m][n][1]) for m in MIG_MAPPING for n in MIG_MAPPING[m]]
+MIG_MODULES = list(MIG_MAPPING)
+# statement forms that are not the import under test: (source, is a top-level from-import that the rewriter touches)
+MIG_OTHER = (
+    "x = 1\n", "import os\n", "from os import path\n", "from . import sibling\n", "from district42 import *\n",
+    "def f():\n    from district42 import schema\n    return schema\n", '"""doc"""\n', "# from district42 import schema\n",
+    "if x:\n    y = 2\nelse:\n    y = 3\n", "from district42 import schema as s  # noqa\n", "z = (1,\n     2)\n", "from __future__ import annotations\n",
+)
+
+
+def mig_import_source(module, names, layout):
+    """names: [(name, asname or None)]"""
+    parts = ["%s as %s" % (n, a) if a else n for n, a in names]
+    if layout == 0:
+        return "from %s import %s\n" % (module, ", ".join(parts))
+    if layout == 1:
+        return "from %s import (\n%s)\n" % (module, "".join("    %s,\n" % p for p in parts))
+    if layout == 2:
+        return "from %s import \\\n    %s\n" % (module, ", \\\n    ".join(parts))
+    return "from %s import (%s,  # comment\n    )\n" % (module, ", ".join(parts))
+
+
+def mig_expected_bindings(module, names):
+    out = set()
+    for n, a in names:
+        if module in MIG_MAPPING and n in MIG_MAPPING[module]:
+            nm, nn = MIG_MAPPING[module][n]
+            out.add((nm, nn, a, a or n))      # (module, name, asname, local name that must stay bound)
+        else:
+            out.add((module, n, a, a or n))
+    return out
+
+
+def mig_problem(source):
+    """'' when rewrite_imports(source) meets C19 on this module (source must be valid Python)."""
+    before = _ast.parse(source)
+    has_from = any(isinstance(n, _ast.ImportFrom) for n in before.body)
+    out = rewrite_imports(source, MIG_MAPPING)
+    if out is None:
+        for n in before.body:
+            if isinstance(n, _ast.ImportFrom) and n.level == 0 and n.module in MIG_MAPPING and \
+                    any(a.name in MIG_MAPPING[n.module] for a in n.names):
+                return "reports nothing to do although a mapped name is imported"
+        return ""
+    if not isinstance(out, str):
+        return "result is neither None nor a string"
+    try:
+        after = _ast.parse(out)
+    except SyntaxError:
+        return "result is not valid Python"
+    j = 0
+    body = after.body
+    for node in before.body:
+        if isinstance(node, _ast.ImportFrom) and node.level == 0:
+            want = mig_expected_bindings(node.module, [(a.name, a.asname) for a in node.names])
+            got = set()
+            while j < len(body) and isinstance(body[j], _ast.ImportFrom) and body[j].level == 0 and len(got) < len(want):
+                for a in body[j].names:
+                    got.add((body[j].module, a.name, a.asname, a.asname or a.name))
+                j += 1
+            if got != want:
+                return "from-import of %s is not replaced by the expected imports" % node.module
+        else:
+            if j >= len(body) or _ast.dump(body[j]) != _ast.dump(node):
+                return "another statement is dropped, altered or reordered"
+            j += 1
+    if j != len(body):
+        return "extra statements in the result"
+    return ""
+
+
+def mig_entry_problem(i, alias):
+    module, name, nm, nn = MIG_ENTRIES[i]
+    try:
+        target = getattr(_importlib.import_module(nm), nn)
+    except Exception as ex:
+        return "mapping target %s.%s is not importable (%s)" % (nm, nn, type(ex).__name__)
+    del target
+    src = "from %s import %s%s\nvalue = 1\n" % (module, name, " as local_name" if alias else "")
+    return mig_problem(src)
